@@ -3,7 +3,7 @@ CLAIMED = {
     "C15": {
         "technique": "MIR guard-liveness dataflow + origin tracing of the locked mutex + dominance of Arc::ptr_eq (lock-order/typestate analysis); address-ordered acquisition and caller-side distinctness proofs for locking helpers; must-pass-through of the element comparison on every path that answers true; delegation check of join; single-lock snapshot of to_vec (lock acquisitions counted through helpers, per-element locking reported); whole-list built-ins read one to_vec snapshot; the vtable's clone function does not depend on needs_drop",
         "level": "Decides the clause 'comparing two lists always terminates' and lock hygiene for every body that takes a Mutex: all CFG paths, all lock sites of the crate; does not decide results of operation histories (run-time values).",
-        "note": "Partial: structural necessary conditions M1-M14 (13 rules).",
+        "note": "Partial: structural necessary conditions only (the rules are listed at the start of this note and in Appendix B of DESIGN.md).",
     },
     "C16": {
         "technique": "MIR escape/taint analysis of guard-derived raw pointers with guard-liveness dataflow and function summaries; who-may-call check on RawList; rustc trait-solver Send/Sync answers per field; single-lock snapshot of to_vec and of the whole-list built-ins built on it (shared C15.M12/M13)",
@@ -18,12 +18,12 @@ CLAIMED = {
     "C01": {
         "technique": "HIR table extraction with symbolic guard evaluation; comparison of sibling tables (ast::BinOp -> lir -> cranelift) with a spec table; operand-origin tracing through let-bindings; forking partial evaluation (vf/sx) of FuncGen::instruction, Lowerer::binop and the lowering of unary operators on every value of the finite operator domain (condition codes, short-circuit constants, exact complements of comparisons); evaluated field comparison of generated equality functions (read with the field's IR type, compared through the type's own equality)",
         "level": "Decides only the operator/width/signedness selection tables and operand wiring (every row of every table, exhaustively); the behaviour of generated code for all programs and inputs is NOT decided (not statically reachable).",
-        "note": "Partial: necessary conditions T1-T12 (12 rules) (quick tier; Appendix B of DESIGN.md lists them).",
+        "note": "Partial: necessary conditions only (the rules are listed at the start of this note and in Appendix B of DESIGN.md) (quick tier; Appendix B of DESIGN.md lists them).",
     },
     "C20": {
         "technique": "sibling-table cross-check of the evaluator's per-instruction arms against the code generator's (HIR table extraction, operand-origin tracing), divergence check of every catch-all arm, assertion-before-access ordering; argument-position provenance in all 16 ir_function adapter instances; frame discipline of the evaluator's variable map (saved at push_frame, restored from pop_frame)",
         "level": "Decides mirror agreement arm by arm (all Instruction variants, all IntCmp/FloatCmp rows, all arithmetic rows), loud fallbacks and checked-memory ordering; equality of results over all scripts is not decided.",
-        "note": "Partial: necessary conditions V1-V11 (10 rules). Memory::get's missing frame-id check is reported as a cross-reference only (no witness IR).",
+        "note": "Partial: necessary conditions only (the rules are listed at the start of this note and in Appendix B of DESIGN.md). Memory::get's missing frame-id check is reported as a cross-reference only (no witness IR).",
     },
     "C11": {
         "technique": "ownership-structure analysis: ADT field tables (drop order = declaration order: JIT memory is the last owning field), forward value-flow of every constructed wrapper / module data value on MIR (through constructors and their callers) into Arc::new, backward data-flow of every ModuleData field to the builder field it comes from, who-may-free / who-may-relinquish over all MIR call sites (reviewed sites, ManuallyDrop decided by the owner's Drop), alloc/dealloc layout agreement by data-flow; interior-address check of the pointer accessors whose results are baked into code; no manual drop of a variable still registered in a frame (shared C03.F7)",
@@ -38,22 +38,22 @@ CLAIMED = {
     "C06": {
         "technique": "interprocedural byte/char unit taint on MIR with parameter summaries; constant-offset inventory against a reviewed table; call-graph reachability of todo!()/unimplemented!() from the compile entry points; HIR arm checks (occurs check before binding, type-argument traversal, character_range at every ariadne call); same-span agreement of file name, converted span and text for every report label; explicit-panic inventory against a reviewed table; progress measure of the import fixpoint (count compared with the count at the start of the same round); sibling agreement of type checker and MIR lowering on desugared operators, both evaluated per operator; per-path visit count of each operand in the evaluated operator checker (no exponential re-checking); directory discovery descends only on DirEntry::file_type (no link-following test); interprocedural typestate of the LIR builder's block under construction (nothing emitted behind a terminator before the next block is opened; per-method summaries to a fixpoint); bound on the number of enum variants (shared C02.L11)",
         "level": "Decides necessary conditions (U1-U18), most of which located a real crash or hang on this tree; panic-freedom and termination of the whole front end on arbitrary text is NOT decided (hundreds of invariant-dependent unwrap/ice! sites).",
-        "note": "Partial: necessary conditions U1-U18 (19 rules).",
+        "note": "Partial: necessary conditions only (the rules are listed at the start of this note and in Appendix B of DESIGN.md).",
     },
     "C09": {
         "technique": "symbolic evaluation of the precedence/associativity tables into the full 13x13 relation and comparison with the documented grammar; round-trip cross-checks of sibling spelling tables (lexer bytes, Token Display, keywords, Token->BinOp, suffix names); dominance order of the token recognisers; byte/char unit taint in the lexer; finite-domain evaluation (vf/symex.py) of the escape state machines of the string/char scanners over all (state, character class) pairs; literal-only brace collapse in f-strings; must-pass-through of an XID_Continue scan on every path to the identifier token cut; cursor monotonicity of the lexer (Lexer::input only computed from the current input); forward data-flow: no numeric cast between digit conversion and the Literal aggregate",
         "level": "Decides the grouping relation for every ordered pair of binary operators and the agreement of all spelling tables; the value denoted by each literal spelling (escapes, number parsing) is NOT decided.",
-        "note": "Partial: necessary conditions P1-P14 (14 rules).",
+        "note": "Partial: necessary conditions only (the rules are listed at the start of this note and in Appendix B of DESIGN.md).",
     },
     "C18": {
         "technique": "must-pass-through on MIR (check_name / declare_runtime_* gates), dominance order of the registration passes, loop-accumulator feedback by origin tracing, panic-site inventory over call-graph-reachable registration code against a reviewed (kind, producer) table; sibling agreement of the recursive passes (scope handed to the recursion), lookup-decides-insertion checks for imports and context types (mir.decided_by), whole-name span comparison in name validation; all-or-nothing restore of the registration state (fields of Rt overwritten by public Runtime methods, closure captures included); push/restore pairing of the prefix stack of the library! macro's use-tree walk (shared C13.R14)",
         "level": "Decides the structural clauses I1-I16 (validation at every constructor, pass order, duplicate -> error, never a panic on the registration path, path walking); that every item is reachable under every library is not decided.",
-        "note": "Partial: necessary conditions I1-I16 (16 rules).",
+        "note": "Partial: necessary conditions only (the rules are listed at the start of this note and in Appendix B of DESIGN.md).",
     },
     "C17": {
         "technique": "pairing of every library! registration with its resolved Rust body (fn item types through const blocks) and name/callee agreement; primitive-reachability and element-type agreement for the string views; cross-width uniformity of macro expansions",
         "level": "Decides that each documented name is bound to the std/inetnum operation of that name (93 registrations) and that each string view counts in its own unit; the values those operations return are trusted, not decided.",
-        "note": "Partial: necessary conditions N1-N7 (7 rules).",
+        "note": "Partial: necessary conditions only (the rules are listed at the start of this note and in Appendix B of DESIGN.md).",
     },
     "C10": {
         "technique": "guard-before-trap check on every trapping cranelift builder call in the code generator; panic-site inventory over the call-graph closure of all registered built-in bodies, discharged by a reviewed (function, kind, producer) table; capacity-from-fresh-length rule of list concatenation (shared C16.M2); index-in-range decisions through length-equality gates",
@@ -63,42 +63,42 @@ CLAIMED = {
     "C07": {
         "technique": "per-arm HIR checks of the type checker's expression and operator tables (expected-type use, documented fixed types, operand contexts), MIR def-use error discipline over every TypeResult-returning call in typechecker::*, call-graph liveness of every diagnostic constructor, guard-before-use checks for the rule-specific tests; crate-wide search: resolved names are never compared by their bare identifier; sibling table of item contexts (constants and tests carry no function return type), by literal, helper or evaluation; value-flow of the right operand's divergence in the short-circuit operator group (used for its error only)",
         "level": "Decides necessary conditions E1-E14 over all 20 expression arms, 7 operator groups, ~320 result-returning call sites and 27 diagnostics; soundness of inference for all programs is not decided.",
-        "note": "Partial: necessary conditions E1-E14 (14 rules).",
+        "note": "Partial: necessary conditions only (the rules are listed at the start of this note and in Appendix B of DESIGN.md).",
     },
     "C08": {
         "technique": "ordered-call-event dominance on the MIR of every lowering method with argument-origin tracing (which sub-expression a visit call visits), iterator-chain inspection for reverse traversal, Value::BinOp operand wiring, truncation arithmetic in dead-code elimination; branch selection of generated Switch code by equality with the branch index (shared C01.T9); evaluated compound assignment (target read before the right-hand side is lowered); must-pass-through of the lowering of every always-evaluated operand, with excuses only behind an inspection of that operand",
         "level": "Decides the visit order of the MIR lowerer (which fixes evaluation order) for all constructs named in the property; the emitted call sequence of every program is not decided.",
-        "note": "Partial: necessary conditions O1-O9 (9 rules).",
+        "note": "Partial: necessary conditions only (the rules are listed at the start of this note and in Appendix B of DESIGN.md).",
     },
     "C03": {
         "technique": "frame-depth dataflow on the MIR of every lowering method (push/pop of stack_slots told apart by the Vec's element type), drain check of every popped frame, 'visit after new_block must own a frame' (typestate of conditionally/repeatedly executed regions), who-may-call for emit_return, dominance chains in assign and RotoFunc::invoke; may-dataflow of 'limbo tokens' (values outside the frames: unregistered temporaries, unregistered call arguments, popped frames) up to every descent into a sub-expression, with helper and per-element-closure summaries; single-exit check of the component loops of generated clone/drop/eq bodies; kind-before-size dominance in lower_type (registered types not elided); drop-on-every-return-path of by-value list built-ins (shared C15.M8); examinee-stored-before-dispatch on every path of the match lowering; helper-carried conditional visits",
         "level": "Decides the MIR lowerer's frame bookkeeping structurally on all CFG paths of all lowering methods - the mechanism that makes generated drops balance; the clone/drop balance of a particular script's generated code is not decided.",
-        "note": "Partial: necessary conditions F1-F17 (17 rules).",
+        "note": "Partial: necessary conditions only (the rules are listed at the start of this note and in Appendix B of DESIGN.md).",
     },
     "C14": {
         "technique": "HIR arm checks for edge/node recording, must-pass-through gates and dominance in find_compilation_order, iterator-chain direction of the order through both lowerings, dominance chain define < finalize < initialise < insert in the code generator; Tarjan stack-membership invariant (stack itself or a flag cleared for every popped vertex); constant reads load on the reading path; no pass shrinks the item list between lowering and code generation (search rule with canary)",
         "level": "Decides that dependency edges are recorded at every resolution site, that the order is gated by the cycle/context checks and honoured by both lowerings, and that each constant is initialised once after finalisation; Tarjan's correctness and graph completeness for all programs are not decided.",
-        "note": "Partial: necessary conditions D1-D7 (7 rules).",
+        "note": "Partial: necessary conditions only (the rules are listed at the start of this note and in Appendix B of DESIGN.md).",
     },
     "C19": {
         "technique": "HIR table extraction of the exit-code and verdict tables, MIR def-use error discipline over every fallible step of cli_inner, counting/aggregation shape of run_tests, cross-site agreement of the test-name prefix literal (incl. format_args pieces) and its lexical unspellability; all-definitions check of the symbol-table key in get_function (package prefix on every path); no test block dropped from the compilation order (shared C14.D6); leftover-input verdict of run_parser decided on the lexer, not on the parser's lookahead; control-dependence of module-file reads on file-type tests in the directory walk (name decides, not is_file)",
         "level": "Decides the small table-like clauses X1-X8 exhaustively (all arms, all call sites); what a particular script's tests do is not decided.",
-        "note": "Partial: necessary conditions X1-X8 (8 rules).",
+        "note": "Partial: necessary conditions only (the rules are listed at the start of this note and in Appendix B of DESIGN.md).",
     },
     "C13": {
         "technique": "dominance/ordering of the lookups in resolve_name on MIR (declarations < recurse test < imports < parent, hit returns early), HIR checks of the path walker's loop-carried state, ADT/derive table of the name key, must-pass-through in imports(), cross-site agreement of discovery and export literals; path rule 'flag false after every further segment fetch' (segments after super); index-provenance rule for the module tree (child index = position of the child's own push, through helper returns); error discipline of module discovery (a failed source read has no successful exit); push/restore pairing of shared prefix stacks on every path of nested-list walks (search rule with canary); iterator-chain scope walks evaluated as loops; accumulator feedback of the registered use-path walk (shared C18.I1)",
         "level": "Decides the lookup order and path-walking rules stated by the property as structural facts of the two functions that implement them, plus key identity and literal agreement; what each reference resolves to in a given tree is not decided.",
-        "note": "Partial: necessary conditions R1-R14 (14 rules).",
+        "note": "Partial: necessary conditions only (the rules are listed at the start of this note and in Appendix B of DESIGN.md).",
     },
     "C02": {
         "technique": "sibling agreement of all LayoutBuilder walks (context classified from resolved HIR patterns, seeding and traversal order read from MIR), direction checks of the clone plumbing by argument-origin tracing, ADT shape / derive table for the shared and immutable types; partial evaluation of the LIR lowering of constant / context reads (clone from the value's own address on the reading path, no aliasing, no remembered loads); default-branch decision of the match lowering on distinct variants (shared C05.A12); tag-width bound: the definition of a declared enum refuses more variants than the one-byte tag distinguishes (constant and edge of the guarding comparison evaluated); examinee-copied-before-dispatch of the match lowering (shared C03.F17)",
         "level": "Decides offset-table agreement between the independent layout walks and the aliasing structure of lists vs values; value semantics and exact addressing of generated code for all programs are not decided.",
-        "note": "Partial: necessary conditions L1-L11 (11 rules).",
+        "note": "Partial: necessary conditions only (the rules are listed at the start of this note and in Appendix B of DESIGN.md).",
     },
     "C05": {
         "technique": "cross-table agreement with rustc as oracle: ADT repr/variant-order facts, rustc layout_of answers exported per Rust type vs the crate's own Primitive::layout table, associated-type table (AsParam/Transformed) vs the pool's reference-type table, statement-order checks of hidden-parameter assembly, fn-pointer type strings of the ABI adapters; per-IrType-variant forward dataflow of the AbiParam extension (uext/sext) over every parameter pushed onto a signature declared with Linkage::Import, through the helpers that build it; generic-argument audit of Layout::new / size_of / extern_clone|drop|eq instances in the typed list API (boundary representation); default-branch decision of the match lowering on distinct variants (shared C02.L10); dominance of every memcpy in the generated clone bodies by the recursive needs_clone predicate (or the leaf arm)",
         "level": "Decides agreement of every table both sides of the boundary derive layout, tags and passing convention from (all mirror enums, all 16 primitive rows, all 28 Value impls, all producers/consumers of the hidden parameters); equality of arbitrary values across the ABI of generated code is not decided.",
-        "note": "Partial: necessary conditions A1-A12 (12 rules); context field offsets (proc-macro template) not decided.",
+        "note": "Partial: necessary conditions only (the rules are listed at the start of this note and in Appendix B of DESIGN.md); context field offsets (proc-macro template) not decided.",
     },
 }
 NOT_APPLICABLE = {}
